@@ -125,6 +125,17 @@ CLAIMED["C13"] = dict(
          "Three genuine defects were repaired (fix: commits). Inputs are sampled.",
     note=TB + "Trusted glue: the obligation generator (exported scalar part -> Lean expression), the relabellings, the harness-side monic normal form of brackets.")
 
+CLAIMED["C18"] = dict(
+    category="translation_validation", design="DESIGN.md §4 C18",
+    technique="per-run validation of print->import->re-assume by the proved checker checkEquiv (tensor kind is part of a tensor's identity in the model) + exact text comparison; operator expressions compared as objects",
+    text="For every expression explored (synthetic incl. spins mixed inside one index group, numbered names, Coulomb integrals, symbolic "
+         "denominators, fractions, sqrt prefactors; operator strings with NO groups; results of the derivation classes also after "
+         "expand_antisym_eri / use_symbolic_denominators) str(e) is imported, the same assumptions are re-applied, and (i) the re-printed text "
+         "must be identical, (ii) the imported expression must be accepted by checkEquiv as equal to the original, which by "
+         "checkEquiv_sound means equal value for all models and - because kind/name/bk are part of a tensor's identity - the same tensor "
+         "kinds. One genuine defect repaired (fix:). Inputs are sampled; the Lean object-grammar theorem of DESIGN (obj_roundtrip) is not built.",
+    note=TB + "Operator expressions (F, Fd, NO) are compared as sympy objects and texts only. Only the default tensor-name configuration is exercised.")
+
 PENDING = {
 }
 
